@@ -121,6 +121,38 @@ def run(res, tier):
                                          'through the constructor argument)', hinf_norm=hn, gamma=gamma, gain=sp_['gain'],
                                     estimator=repr(m_), X=Xs.tolist()))
                     break
+    # one lag filter (DC gain 4, high-frequency gain 1; zero at 0.8 and pole at 0.2 of the Nyquist frequency) written in each of
+    # the three unit systems, for sampling periods other than one, on a plant whose gain peaks at low frequency
+    A_lag = np.array([[0.9, 0.2], [-0.2, 0.85]])
+    usweep = [(t, u, c) for t in (0.1, 0.5) for u in ('normalized', 'hz', 'rad/s') for c in (L.LmiEdmdHinfReg, L.LmiDmdcHinfReg)]
+    for j, (t_step, units, cls) in enumerate(usweep if tier != 'quick' else usweep[::2] + usweep[1::6]):
+        nyq_hz = 1 / (2 * t_step)
+        f = {'normalized': 1.0, 'hz': nyq_hz, 'rad/s': 2 * np.pi * nyq_hz}[units]
+        zeros, poles = -0.8 * f, -0.2 * f
+        Bl = rng.normal(size=(2, 1))
+        rows = []
+        for l in range(2):
+            x = rng.normal(size=2)
+            for _ in range(40):
+                u_ = rng.normal(size=1)
+                rows.append([float(l)] + list(x) + list(u_))
+                x = A_lag @ x + Bl @ u_ + 0.01 * rng.normal(size=2)
+        Xl = np.array(rows)
+        try:
+            m_ = L.LmiHinfZpkMeta(hinf_regressor=cls(alpha=1.0, ratio=1.0, max_iter=8, solver_params=lmi.SOLVER), type='post',
+                                  zeros=zeros, poles=poles, gain=1.0, discretization='bilinear', t_step=t_step, units=units)
+            m_.fit(Xl, n_inputs=1, episode_feature=True)
+        except Exception:  # noqa
+            dist['fit_error'] = dist.get('fit_error', 0) + 1
+            continue
+        dist['unit_system_sweep'] = dist.get('unit_system_sweep', 0) + 1
+        reg = m_.hinf_regressor_
+        gamma = float(np.ravel(reg.gamma_)[0])
+        desc = dict(estimator=repr(m_), family='zpk', data='lag filter, low-frequency plant', n_states=2, n_inputs=1, gamma=gamma,
+                    n_iter=int(reg.n_iter_), stop_reason=str(reg.stop_reason_))
+        info = check(reg, 2, lmi.zpk_filter(zeros, poles, 1.0, t_step, 'bilinear', units), gamma, desc, Xl)
+        if info:
+            bad.append(dict(info, **desc, X=Xl.tolist()))
     # weights with a large gain on two input channels (second-order filters whose state matrix is not a multiple of the
     # identity), lightly damped plant: the cascade must be the documented one (one copy of the SISO filter per channel)
     w_diag = (np.diag([0.9, 0.5]), np.array([[1.0], [1.0]]), np.array([[0.5, -0.4]]), np.array([[0.2]]))
@@ -132,6 +164,10 @@ def run(res, tier):
     w_fir = (np.zeros((1, 1)), np.array([[1.0]]), np.array([[0.9]]), np.array([[0.3]]))
     extra = [(c, 'pre', w_modal, 1.0) for c in (L.LmiEdmdHinfReg, L.LmiDmdcHinfReg)]
     extra += [(L.LmiEdmdHinfReg, t, w_fir, 1.0) for t in ('pre', 'post')]
+    # two first-order sections in series (triangular, non-symmetric state matrix) realised with ||[B_w A_w]|| < 1, so that the
+    # first iteration (P = I) is feasible and the fit is not the trivial zero matrix
+    w_series = (np.array([[0.5, 0.4], [0.0, 0.5]]), np.array([[0.0], [0.5]]), np.array([[2.0, 0.0]]), np.array([[0.2]]))
+    extra += [(c, 'post', w_series, 1.0) for c in (L.LmiEdmdHinfReg, L.LmiDmdcHinfReg)] + [(L.LmiEdmdHinfReg, 'pre', w_series, 1.0)]
     for j, (cls, typ, wss, alpha) in enumerate((sweep if tier != 'quick' else sweep[::2] + sweep[1::4]) + extra):
         A0 = np.array([[0.9, 0.2, 0.0], [-0.2, 0.9, 0.1], [0.0, -0.1, 0.8]]); B0 = np.array([[0.5, 0.0], [0.0, 0.3], [0.2, 0.4]])
         if alpha == 1.0:
